@@ -35,3 +35,65 @@ pub fn c13_len_parse_u64() {
     kani::cover!(r.is_err() && n <= 19, "non_digit");
     kani::cover!(true, "end");
 }
+
+/// C12.pad / C09.frame: `Headers::load` (framing part only: padding, priority, fragment
+/// extraction - no HPACK) on a payload of concrete length N with symbolic flags, id and
+/// bytes.  Reference: RFC 9113 §6.2 - Pad Length octet if PADDED, 5 octets of priority if
+/// PRIORITY, padding must not exceed what remains (an empty fragment is legal), a stream
+/// must not depend on itself, stream 0 is illegal.
+fn headers_load_fixed<const N: usize>() {
+    let flags: u8 = kani::any();
+    let sid: u32 = kani::any();
+    kani::assume(sid <= 0x7fff_ffff);
+    let payload: [u8; N] = kani::any();
+    let mut src = BytesMut::with_capacity(N + 8);
+    src.extend_from_slice(&payload);
+    let head = Head::new(Kind::Headers, flags, StreamId::from(sid));
+    let r = Headers::load(head, src);
+    let padded = flags & 0x8 != 0;
+    let priority = flags & 0x20 != 0;
+    // reference
+    let mut pos = 0usize;
+    let mut pad = 0usize;
+    let mut want_err = sid == 0;
+    if !want_err && padded {
+        if N < 1 { want_err = true; } else { pad = payload[0] as usize; pos = 1; }
+    }
+    let mut self_dep = false;
+    if !want_err && priority {
+        if N < pos + 5 { want_err = true; } else {
+            let dep = (((payload[pos] as u32) << 24) | ((payload[pos + 1] as u32) << 16) | ((payload[pos + 2] as u32) << 8) | (payload[pos + 3] as u32)) & 0x7fff_ffff;
+            self_dep = dep == sid;
+            pos += 5;
+        }
+    }
+    if !want_err && !self_dep && pad > N - pos { want_err = true; }
+    match &r {
+        Ok((h, rest)) => {
+            assert!(!want_err && !self_dep, "C09.frame: malformed HEADERS frame accepted");
+            assert!(rest.len() == N - pos - pad, "C12.pad: header block fragment length after stripping padding/priority");
+            let mut i = 0;
+            while i < rest.len() {
+                assert!(rest[i] == payload[pos + i], "C12.pad: fragment bytes");
+                i += 1;
+            }
+            assert!(u32::from(h.stream_id()) == sid);
+            assert!(h.is_end_stream() == (flags & 0x1 != 0) && h.is_end_headers() == (flags & 0x4 != 0));
+        }
+        Err(e) => {
+            assert!(want_err || self_dep, "C09: well-formed HEADERS frame rejected (e.g. padded frame with an empty fragment)");
+            if !want_err && self_dep {
+                assert!(*e == Error::InvalidDependencyId, "self-dependency must be the stream-level error");
+            }
+        }
+    }
+    kani::cover!(r.is_ok() && padded && pad > 0 && N - pos - pad == 0, "padded_empty_fragment");
+    kani::cover!(r.is_err(), "rejected");
+    kani::cover!(true, "end");
+    std::mem::forget(r);
+}
+pub fn c12_pad_headers_load_0() { headers_load_fixed::<0>() }
+pub fn c12_pad_headers_load_1() { headers_load_fixed::<1>() }
+pub fn c12_pad_headers_load_3() { headers_load_fixed::<3>() }
+pub fn c12_pad_headers_load_6() { headers_load_fixed::<6>() }
+pub fn c12_pad_headers_load_9() { headers_load_fixed::<9>() }
